@@ -114,12 +114,12 @@ def run(ctx):
                     check_block(ctx, np, dtw, dtw_ndim, dtw_cc, cont, nd, ss, kw, block, table)
 
     # scale-up slice: collections of more than 8 / 16 / 32 / 64 series with random blocks
-    for rep in range(ctx.scale(10, 100)):
+    for rep in range(ctx.scale(48, 300)):
         idx += 1
         if not ctx.mine(idx):
             continue
         crng = __import__("random").Random(77000 + rep + ctx.seed)
-        n = crng.choice([9, 16, 17, 33, 64, 65, crng.randint(18, 70)])
+        n = crng.choice([9, 16, 17, 33, 64, 65, crng.randint(18, 70), 100, crng.randint(66, 110)])
         cont = crng.choice(["list_np", "matrix", "ndim_matrix", "ndim_list"])
         nd = 2 if cont.startswith("ndim") else 0
         equal = cont in ("matrix", "ndim_matrix") or crng.random() < 0.5
@@ -137,10 +137,31 @@ def run(ctx):
                 for b_ in range(a_):
                     table[a_][b_] = table[b_][a_]
         ctx.count("large_collections")
-        for _b in range(4):
+        for _b in range(8):
             rb = crng.randrange(n); re_ = crng.randint(rb + 1, n); cb = crng.randrange(n); ce = crng.randint(cb + 1, n)
-            block = crng.choice([None, ((rb, re_), (cb, ce)), ((rb, re_), (cb, ce), False), ((0, n), (cb, ce)), ((rb, re_), (0, n))])
+            block = crng.choice([None, ((rb, re_), (cb, ce)), ((rb, re_), (cb, ce), False), ((0, n), (cb, ce)), ((rb, re_), (0, n)),
+                                 ((0, re_), (0, n)), ((rb, re_), (0, n), False), ((0, re_), (cb, n)), ((rb, n), (0, n))])
             check_block(ctx, np, dtw, dtw_ndim, dtw_cc, cont, nd, ss, kw, block, table)
+
+    # one large collection, every number of block rows (C engine against the pairwise table): row counts that happen to be
+    # a multiple of some internal chunk size are all among them
+    if ctx.mine(idx + 1):
+        crng = __import__("random").Random(99000 + ctx.seed)
+        n = 100
+        for cont in ("list_np", "matrix"):
+            ss = [gen.series(crng, 3 if cont == "matrix" else crng.randint(1, 3), "dyadic") for _ in range(n)]
+            with monitors.quiet():
+                arrs = [np.array(s) for s in ss]
+                table = [[0.0] * n for _ in range(n)]
+                for a_ in range(n):
+                    for b_ in range(a_ + 1, n):
+                        table[a_][b_] = table[b_][a_] = float(pyd(arrs[a_], arrs[b_]))
+            for re_ in range(1, n + 1):
+                for block in (((0, re_), (0, n)), ((0, re_), (0, n), False)):
+                    if block[-1] is False and re_ % 7:
+                        continue
+                    check_block(ctx, np, dtw, dtw_ndim, dtw_cc, cont, 0, ss, {}, block, table, engines=("c",))
+            ctx.count("row_count_sweeps_on_100_series")
 
 
 def make_container(np, cont, ss, engine):
@@ -159,7 +180,7 @@ def make_container(np, cont, ss, engine):
     raise ValueError(cont)
 
 
-def check_block(ctx, np, dtw, dtw_ndim, dtw_cc, cont, nd, ss, kw, block, table):
+def check_block(ctx, np, dtw, dtw_ndim, dtw_cc, cont, nd, ss, kw, block, table, engines=("py", "c")):
     n = len(ss)
     pairs = pairs_of(n, block)
     want = [table[r][c] for r, c in pairs]
@@ -169,7 +190,7 @@ def check_block(ctx, np, dtw, dtw_ndim, dtw_cc, cont, nd, ss, kw, block, table):
         ctx.count("blocks_selecting_no_pair")
     triu = not (block is not None and len(block) > 2 and block[2] is False)
     wit = dict(container=cont, n=n, block=block, series=ss, settings=dict(dtwmon.settings_key(kw)), ndim=nd)
-    for engine in ("py", "c"):
+    for engine in engines:
         data = make_container(np, cont, ss, engine)
         if nd:
             def f(**o):
